@@ -454,6 +454,15 @@ class StereoCondensedReactionGraph(StereoMolGraph, CondensedReactionGraph):
                     for change, stereo in stereo_change.items()
                 }
                 enantiomer.set_atom_stereo_change(**stereo_change_inverted)
+        for bond in self.bonds:
+            bond_stereo_change = self.get_bond_stereo_change(bond)
+            if bond_stereo_change:
+                bond_stereo_change_inverted = {
+                    change.value: stereo.invert() if stereo else None
+                    for change, stereo in bond_stereo_change.items()
+                }
+                enantiomer.set_bond_stereo_change(
+                    **bond_stereo_change_inverted)
         return enantiomer
 
     def _to_rdmol(
